@@ -21,23 +21,33 @@ from harness import core
 MODULE = 'PyPhysim.Properties.C20'
 DRIVER = 'drv_c20'
 CLAIM = {
-    'technique': 'Lean 4 theorems (Mathlib matrices over a commutative star ring, real analysis) about an '
-                 'executable polymorphic model; kernels are contract parameters; seeded differential '
-                 'correspondence at binary64 with tapped kernel calls',
-    'text': 'For every matrix A and every left inverse G of A^H A (the contract of np.linalg.inv; exists iff A has '
-            'full column rank) the modelled projector is Hermitian, idempotent, fixes A, is complementary to the '
-            'orthogonal projector, reflection is an involution, the projector is invariant under change of basis '
-            'and covariant under unitary rotation; the projector-based chordal distances are symmetric, zero '
-            'exactly for equal spans, basis- and rotation-invariant, agree with each other under the QR contract '
-            'and with the principal-angle form for equal dimensions under the SVD contract; whitening gives the '
-            'identity under the eigh contract; update_inv_sum_diag returns the inverse of A+D for every length and '
-            'every non-zero pivot sequence; peig/leig/least_right_singular_vectors select exactly the indexes their '
-            'names say for every argsort/svd result satisfying the contract; dB/linear/dBm and Eb/N0 conversions '
-            'are mutually inverse on the positive reals.',
-    'note': 'trusted: numpy kernels (contracts checked per case, not proved), binary64 rounding (correspondence '
-            'compared within 1e-9 of the absolute-value product bound), the harness.  gmd is contract-checked '
-            'numerically per case (only its 2x2 Givens step is proved).  Known finding: the principal-angle '
-            'chordal distance disagrees with the projector forms for subspaces of different dimension.',
+    'technique': 'Lean 4 theorems (Mathlib matrices over a commutative star ring / C / R, real analysis) about an '
+                 'executable polymorphic model; numpy kernels are contract parameters whose calls are tapped; '
+                 'conversions regenerated from source; seeded differential correspondence at binary64',
+    'text': 'For every matrix A and every left inverse G of A^H A (the contract of np.linalg.inv; over C such a G '
+            'exists iff A has full column rank) the modelled projector is Hermitian, idempotent, fixes A, has a '
+            'residual orthogonal to A, is complementary to the orthogonal projector; reflection is an involution; '
+            'the projector is invariant under change of basis and covariant under unitary rotation. The '
+            'projector-based chordal distances are symmetric, zero exactly for equal spans (both directions), '
+            'basis- and rotation-invariant, equal to each other under the QR contract and equal to the '
+            'principal-angle form for equal dimensions under the SVD contract (the cosines are proved <= 1). '
+            'calc_whitening_matrix gives W^H C W = 1 for every Hermitian C whose eig and qr results satisfy their '
+            'contracts with positive eigenvalues (repeated eigenvalues included). update_inv_sum_diag returns, for '
+            'every diagonal length <= n, a left inverse of A + D whenever the pivots are non-zero, which holds '
+            'whenever every partial sum is invertible; longer diagonals give IndexError. peig / leig / '
+            'least_right_singular_vectors / get_principal_component_matrix select exactly what their names say for '
+            'every argsort / eig / svd result satisfying its contract. dB/linear/dBm and SNR/EbN0 conversions '
+            '(definitions regenerated from the source) are mutually inverse on the (positive) reals.',
+    'note': 'trusted: numpy kernels (contracts checked numerically on every case, not proved), binary64 rounding '
+            '(correspondence compared within 1e-9 of the absolute-value product bound), the harness and the '
+            'conversion translator plugin. PARTIAL: gmd - the full statement GmdStatement is not proved; its '
+            'executable model is tied by correspondence, each Givens step is proved '
+            '(gmd_rotation_step_partial) and the decomposition is checked numerically per case. KNOWN FINDING: the '
+            'principal-angle chordal distance disagrees with the projector forms for subspaces of different '
+            'dimension (negative witness chordal_angles_disagree_when_dims_differ). Four defects fixed in the '
+            'worktree (whitening with repeated eigenvalues; get_principal_component_matrix integer dtype and wide '
+            'matrices; least_right_singular_vectors on wide matrices): the model mirrors the repaired code, so '
+            'the check alarms on a tree without those commits.',
 }
 
 EPS = 2.220446049250313e-16
@@ -185,7 +195,11 @@ class Gen:
                     a = a + 1j * self.rs.randint(-3, 4, size=(m, k))
             elif kind == 'cond':
                 cond = 10.0 ** self.rng.uniform(0, math.log10(max_cond) - 0.3)
-                s = np.exp(np.linspace(0, -math.log(cond), k)) if k > 1 else np.ones(1)
+                if k > 1:   # random spectrum between 1 and 1/cond (end points fixed)
+                    mid = sorted((self.rng.uniform(0, 1) for _ in range(k - 2)))
+                    s = np.exp(-math.log(cond) * np.array([0.0] + mid + [1.0]))
+                else:
+                    s = np.ones(1)
                 u = self.unitary(m, cplx)[:, :k]
                 v = self.unitary(k, cplx)
                 a = (u * s) @ H(v) * 10.0 ** self.rng.uniform(-2, 2)
@@ -220,6 +234,9 @@ class Gen:
             c = np.eye(n, dtype=complex if cplx else float) * float(self.rng.randint(1, 5))
         c = (c + H(c)) / 2
         return c, kind
+
+
+HPD_KINDS = ['wishart', 'rank1', 'spectrum', 'wishart', 'diag', 'ident']
 
 
 def cond2(a):
@@ -625,11 +642,17 @@ def shapes(rng, tier):
     return m, k
 
 
-def gen_proj_case(g):
+PROJ_KINDS = ['gauss', 'gint', 'cond', 'neardep', 'gauss']
+
+
+def gen_proj_case(g, t=None):
     rng = g.rng
     m, k = shapes(rng, None)
-    cplx = rng.chance(0.6)
-    a, kind = g.full_rank(m, k, cplx)
+    if t is not None and t % 10 == 3:
+        m = max(m, 2)
+        k = rng.randint(2, m)          # nearly dependent columns need two columns
+    cplx = rng.chance(0.6) if t is None else (t % 2 == 0)
+    a, kind = g.full_rank(m, k, cplx, kind=None if t is None else PROJ_KINDS[t % 5])
     c = rng.randint(1, 4)
     mm = g.raw(m, c, cplx or rng.chance(0.3))
     return a, mm, kind
@@ -637,9 +660,9 @@ def gen_proj_case(g):
 
 def gen_pair(g, equal_dims=True):
     rng = g.rng
-    m = rng.randint(1, 8)
+    m = rng.randint(1, 8) if equal_dims else rng.randint(2, 8)
     p = rng.randint(1, m)
-    q = p if equal_dims else rng.randint(1, m)
+    q = p if equal_dims else rng.choice([x for x in range(1, m + 1) if x != p])
     cplx = rng.chance(0.6)
     a, ka = g.full_rank(m, p, cplx, max_cond=1e4)
     b, kb = g.full_rank(m, q, cplx, max_cond=1e4)
@@ -652,7 +675,7 @@ def gen_pair(g, equal_dims=True):
     return a, b, cplx
 
 
-def gen_uisd_case(g):
+def gen_uisd_case(g, short=None):
     rng = g.rng
     n = rng.randint(1, 8)
     cplx = rng.chance(0.6)
@@ -664,7 +687,10 @@ def gen_uisd_case(g):
         else:
             a, _ = g.full_rank(n, n, cplx, max_cond=1e3)
             d = g.rs.randn(n) * 10.0 ** rng.uniform(-1, 1)
-        ln = n if rng.chance(0.8) else rng.randint(0, n)
+        if short is None:
+            ln = n if rng.chance(0.8) else rng.randint(0, n)
+        else:
+            ln = rng.randint(0, n - 1) if short else n
         d = d[:ln]
         if cplx and rng.chance(0.3):
             d = d + 1j * g.rs.randn(ln)
@@ -724,8 +750,8 @@ def corr_projection(ctx, g, drv, n_cases):
     proj, _, _, _ = _impl()
     cases = []
     lines = []
-    for _ in range(n_cases):
-        a, mm, kind = gen_proj_case(g)
+    for t in range(n_cases):
+        a, mm, kind = gen_proj_case(g, t)
         m, k = a.shape
         with Tap() as tap:
             p = proj.calcProjectionMatrix(a)
@@ -791,8 +817,8 @@ def corr_projection(ctx, g, drv, n_cases):
 def corr_chordal(ctx, g, drv, n_cases):
     _, met, _, _ = _impl()
     cases, lines = [], []
-    for _ in range(n_cases):
-        a, b, cplx = gen_pair(g, equal_dims=g.rng.chance(0.8))
+    for t in range(n_cases):
+        a, b, cplx = gen_pair(g, equal_dims=(t % 5 != 4))
         m, p = a.shape
         q = b.shape[1]
         with Tap() as t2:
@@ -874,10 +900,10 @@ def corr_chordal(ctx, g, drv, n_cases):
 def corr_whiten(ctx, g, drv, n_cases):
     _, _, misc, _ = _impl()
     cases, lines = [], []
-    for _ in range(n_cases):
+    for t in range(n_cases):
         n = g.rng.randint(1, 8)
         cplx = g.rng.chance(0.6)
-        c, kind = g.hpd(n, cplx)
+        c, kind = g.hpd(n, cplx, HPD_KINDS[t % len(HPD_KINDS)])
         with Tap() as tap:
             w = misc.calc_whitening_matrix(c)
         names = [x[0] for x in tap.log]
@@ -886,7 +912,18 @@ def corr_whiten(ctx, g, drv, n_cases):
             continue
         lam, v_eig = tap.log[0][3]
         ok_arg = np.array_equal(tap.log[0][1][0], c) and np.array_equal(tap.log[1][1][0], v_eig)
-        v = tap.log[1][3][0]
+        v, rfac = tap.log[1][3]
+        # contracts of the two kernel calls (hypotheses of eig_then_qr_contract)
+        sc = max(1.0, np.abs(c).max())
+        k1 = np.abs(c @ v_eig - v_eig * lam).max() / sc
+        k2 = np.abs(v @ rfac - v_eig).max()
+        k3 = np.abs(H(v) @ v - np.eye(n)).max()
+        k4 = bool(np.all(np.tril(rfac, -1) == 0)) and bool(np.all(np.abs(np.diag(rfac)) > 1e-8))
+        k5 = np.abs(c - H(c)).max() / sc
+        if not (k1 <= 1e-9 and k2 <= 1e-9 and k3 <= 1e-9 and k4 and k5 <= 1e-12):
+            ctx.tie_broken('correspondence', 'contract:eig/qr',
+                           'CV-VL %.2e, QR-V %.2e, Q^HQ-I %.2e, R upper triangular invertible %s, C-C^H %.2e'
+                           % (k1, k2, k3, k4, k5), {'C': enc(c)})
         cases.append((c, kind, w, lam, v, 'eig+qr', ok_arg))
         lines.append('whiten %d %s %s' % (n, cline(lam), cline(v)))
     out = drv.ask(lines)
@@ -914,8 +951,8 @@ def corr_whiten(ctx, g, drv, n_cases):
 def corr_uisd(ctx, g, drv, n_cases):
     _, _, misc, _ = _impl()
     cases, lines = [], []
-    for _ in range(n_cases):
-        a, d = gen_uisd_case(g)
+    for t in range(n_cases):
+        a, d = gen_uisd_case(g, short=(t % 5 == 4))
         n = a.shape[0]
         inv_a = np.linalg.inv(a)
         if np.iscomplexobj(d) and not np.iscomplexobj(inv_a):
@@ -951,8 +988,8 @@ def corr_select(ctx, g, drv, n_cases):
     for _ in range(n_cases):
         a = gen_herm(g)
         ncols = a.shape[1]
-        which = g.rng.choice(['peig', 'leig'])
-        n = g.rng.randint(0, ncols + 2)
+        which = ['peig', 'leig'][len(cases) % 2]
+        n = g.rng.randint(0, ncols) if len(cases) % 6 != 5 else ncols + g.rng.randint(1, 2)
         fn = misc.peig if which == 'peig' else misc.leig
         with Tap() as tap:
             try:
@@ -1086,6 +1123,57 @@ def corr_gpcm(ctx, g, drv, n_cases):
         ctx.corr('get_principal_component_matrix', case, 'agree' if ok else 'differs: ' + why, 'agree', key=key)
 
 
+def corr_gmd(ctx, g, drv, n_cases):
+    _, _, misc, _ = _impl()
+    cases, lines = [], []
+    for t in range(n_cases):
+        if t % 7 == 6:      # repeated singular values (no rotation branch)
+            n = g.rng.randint(1, 6)
+            a = g.unitary(n, g.rng.chance(0.5)) * float(g.rng.randint(1, 4))
+        else:
+            a = gen_rect(g)
+        m, n = a.shape
+        u, sv, vh = np.linalg.svd(a)
+        tol = 0.0
+        if t % 6 == 5 and sv.size < 2:
+            a = g.raw(3, 2, True)
+            m, n = a.shape
+            u, sv, vh = np.linalg.svd(a)
+        if t % 6 == 5:
+            tol = float(np.sqrt(sv[-1] * sv[-2]))      # drops the smallest singular value
+        with Tap() as tap:
+            q, r, pm = misc.gmd(u, sv, vh, tol)
+        pcount = int(np.sum(sv >= tol))
+        sb = float(np.prod(sv[0:pcount]) ** (1. / pcount))
+        cases.append((a, u, sv, vh, tol, pcount, q, r, pm, len(tap.log)))
+        lines.append('gmd %d %d %d %s %s %s %s' % (m, n, pcount, core.f2s(sb), cline(u), fline(sv), cline(H(vh))))
+    out = drv.ask(lines)
+    for i, (a, u, sv, vh, tol, pcount, q, r, pm, ncalls) in enumerate(cases):
+        m, n = a.shape
+        case = {'A': enc(a), 'tol': tol}
+        key = ('gmd', m, n, pcount, np.iscomplexobj(a), i)
+        ctx.branch('gmd:p<len(S)' if pcount < sv.size else 'gmd:p=len(S)')
+        if out[i].startswith('error'):
+            ctx.corr('gmd', case, 'value', out[i], key=key)
+            continue
+        q_s, r_s, p_s, mg_s = out[i].split('|')
+        margin = core.s2f(mg_s)      # conditioning: min over rotations of min(c^2,1-c^2)*|d1^2-d2^2|/sb^2
+        if not margin >= 1e-6:
+            # a singular value (numerically) equal to the geometric mean: c or s is the root of a
+            # cancelled difference, the factors are determined only up to that noise (the oracle
+            # still checks the decomposition itself)
+            ctx.branch('gmd:ill-conditioned-rotation-skipped')
+            continue
+        scale = max(1.0, float(sv[0]), float(sv[0] / sv[pcount - 1])) / margin
+        ok1, w1 = within(q, parse_c(q_s, (m, m)), scale * np.ones((m, m)), rtol=1e-11)
+        ok2, w2 = within(r, parse_c(r_s, (m, n)), scale * np.ones((m, n)), rtol=1e-11)
+        ok3, w3 = within(pm, parse_c(p_s, (n, n)), scale * np.ones((n, n)), rtol=1e-11)
+        ok = ok1 and ok2 and ok3
+        ctx.corr('gmd', case, 'agree' if ok else 'differs: Q %s R %s P %s' % (w1, w2, w3), 'agree', key=key)
+        if ncalls:
+            ctx.corr('gmd.kernel-calls', case, 'calls=%d' % ncalls, 'calls=0', key=key + ('k',))
+
+
 def corr_conversion(ctx, g, drv, n_cases):
     _, _, _, conv = _impl()
     xs, ys, bs = [], [], []
@@ -1117,14 +1205,21 @@ def corr_conversion(ctx, g, drv, n_cases):
 def correspondence(ctx, scale):
     g = Gen(ctx.rng.fork('corr'))
     drv = core.Driver(DRIVER)
-    corr_projection(ctx, g, drv, 40 * scale)
-    corr_chordal(ctx, g, drv, 30 * scale)
-    corr_whiten(ctx, g, drv, 30 * scale)
-    corr_uisd(ctx, g, drv, 30 * scale)
-    corr_select(ctx, g, drv, 40 * scale)
-    corr_lrsv(ctx, g, drv, 40 * scale)
-    corr_gpcm(ctx, g, drv, 40 * scale)
-    corr_conversion(ctx, g, drv, 60 * scale)
+    plan = [(corr_projection, 40), (corr_chordal, 30), (corr_whiten, 30), (corr_uisd, 30), (corr_select, 40),
+            (corr_lrsv, 40), (corr_gpcm, 40), (corr_gmd, 40), (corr_conversion, 60)]
+    for fn, n in plan:
+        try:
+            fn(ctx, g, drv, n * scale)
+        except core.Infra:
+            raise
+        except Exception as e:
+            # the implementation raised where the model has a value (or returned something the
+            # comparison cannot even parse): the correspondence is broken, the oracles look for the input
+            import traceback
+            ctx.branch('disagree:' + fn.__name__)
+            ctx.tie_broken('correspondence', fn.__name__,
+                           'exception while running the implementation: %r\n%s' % (e, traceback.format_exc()[-1200:]))
+            ctx.required_branches = []
 
 
 # ------------------------------------------------------------------ oracles
@@ -1207,6 +1302,35 @@ def oracles(ctx, scale):
                                        'bits': rng.randint(1, 10)})
 
 
+def exhaustive_shapes(ctx):
+    """thorough tier: every shape of the quantifier's range once per field"""
+    g = Gen(ctx.rng.fork('shapes'))
+    for cplx in (False, True):
+        for m in range(1, 9):
+            for k in range(1, m + 1):
+                a, _ = g.full_rank(m, k, cplx, kind='gauss')
+                b, _ = g.full_rank(m, k, cplx, kind='gauss')
+                run_oracle(ctx, 'Projection', {'A': enc(a), 'M': enc(g.raw(m, 2, cplx))}, key=('shape', m, k, cplx))
+                run_oracle(ctx, 'calc_chordal_distance', {'A': enc(a), 'B': enc(b)}, key=('shape', m, k, cplx))
+            for c in range(1, 9):
+                a = g.raw(m, c, cplx)
+                run_oracle(ctx, 'gmd', {'A': enc(a)}, key=('shape', m, c, cplx))
+                for n in range(0, c + 1):
+                    run_oracle(ctx, 'least_right_singular_vectors', {'A': enc(a), 'n': n}, key=('shape', m, c, n, cplx))
+                for k in range(1, min(m, c) + 1):
+                    run_oracle(ctx, 'get_principal_component_matrix', {'A': enc(a), 'k': k}, key=('shape', m, c, k, cplx))
+            h = g.raw(m, m, cplx)
+            h = h + H(h)
+            for n in range(0, m + 2):
+                for which in ('peig', 'leig'):
+                    run_oracle(ctx, 'peig/leig', {'A': enc(h), 'n': n, 'which': which}, key=('shape', m, n, which, cplx))
+            c, _ = g.hpd(m, cplx, 'rank1')
+            run_oracle(ctx, 'calc_whitening_matrix', {'C': enc(c)}, key=('shape', m, cplx))
+            a, d = gen_uisd_case(g)
+            run_oracle(ctx, 'update_inv_sum_diag', {'A': enc(a.astype(complex) if np.iscomplexobj(d) else a), 'd': enc(d)})
+    ctx.branch('exhaustive-shapes')
+
+
 def check(ctx):
     ctx.rule = ('matrices m x k, 1 <= k <= m <= 8 (selectors/gmd: any 1..8 x 1..8), real or complex, drawn from '
                 'gaussian / Gaussian-integer / prescribed condition number (<= 1e6) / nearly dependent columns; '
@@ -1215,13 +1339,21 @@ def check(ctx):
                 'and dB values -150..150 for the conversions; non-trivial = distinct (function, shape, field, '
                 'generator kind, case index)')
     quick = ctx.tier == 'quick'
-    scale = 1 if quick else 25
-    core.prove(ctx, MODULE, generated=[], drivers=[DRIVER], scratch=ctx.scratch)
+    scale = 1 if quick else 250
+    core.prove(ctx, MODULE, generated=['C20Conversion'], drivers=[DRIVER], scratch=ctx.scratch)
+    ctx.notes += [
+        'numpy.linalg.inv / qr / svd / eig and numpy.argsort are tapped while the real code runs: their results are '
+        'parameters of the model, their arguments are compared with the model, and the contracts the theorems assume '
+        '(G (A^H A) = 1; Q^H Q = 1, A = Q R, R upper triangular invertible; M = U diag(s) V^H with unitary factors; '
+        'A V = V diag(D); argsort = sorting permutation) are checked numerically on every case',
+        'harness/gen/c20.py (float-expression fragment of util/conversion.py -> Generated/C20Conversion.lean)',
+        'gmd: only the Givens step is proved; the sweep is an executable model tied by correspondence',
+    ]
     ctx.required_branches = ['complex', 'real', 'tall', 'square', 'proj:neardep', 'proj:cond', 'proj:gint',
                              'chordal:dims-equal', 'chordal:dims-differ', 'whiten:rank1', 'whiten:spectrum',
                              'uisd:full-diagonal', 'uisd:short-diagonal', 'select:peig', 'select:leig',
                              'select:error', 'lrsv:wide', 'lrsv:tall-or-square', 'gpcm:wide',
-                             'gpcm:tall-or-square', 'conversion']
+                             'gpcm:tall-or-square', 'gmd:p=len(S)', 'gmd:p<len(S)', 'conversion']
     try:
         correspondence(ctx, scale)
     except core.Infra as e:
@@ -1230,6 +1362,8 @@ def check(ctx):
         ctx.notes.append('correspondence skipped: %s' % e)
         ctx.required_branches = []
     oracles(ctx, scale)
+    if not quick:
+        exhaustive_shapes(ctx)
 
 
 def search(ctx):
